@@ -472,8 +472,18 @@ class C04(Check):
                 at = rng.randint(r - rule + 1, c - 1)         # a solve inside the interval but before the instant
             sc = rng.choice([0, 0, 3600 * rng.randint(1, 23)])
             cases.append((hyd, rule, c, at, rng.choice(["sim", "sim", "tod"]), sc))
+        # premises at the start of the simulation (time 0 / clock time = start_clocktime: seen by the FIRST rule timestep),
+        # exactly on a rule timestep, and on the first rule timestep itself
+        for i in range(6 if ctx.quick else 30):
+            hyd = rng.choice([1800, 3600])
+            rule = rng.choice([300, 600, 900, 1800])
+            sc = rng.choice([0, 3600 * rng.randint(1, 23), rng.randint(1, 86399)])
+            k = rng.randint(1, 2 * hyd // rule + 2)
+            for c in (0, rule * k, rule):
+                at = rng.choice([None, rng.randint(1, rule - 1)]) if c == 0 else None
+                cases.append((hyd, rule, c, at, rng.choice(["sim", "tod"]), sc))
         for hyd, rule, c, at, kind, sc in cases:
-            r = -(-c // rule) * rule
+            r = max(rule, -(-c // rule) * rule)
             cond = ("sim", "eq", c, 0) if kind == "sim" else ("tod", "eq", (c + sc) % 86400, 1, 0)
             ctls = [{"id": 0, "kind": "R", "prio": 3, "cond": cond, "then": [(0, 1)], "else": []}]
             if at is not None:
@@ -481,10 +491,12 @@ class C04(Check):
             s = {"hyd": hyd, "rule": rule, "report": 0, "duration": (r // hyd + 2) * hyd, "start_clock": sc, "init": {"0": 0, "1": 1}, "controls": ctls}
             rows, _ = schedgen.run_impl(wntr, schedgen.build_wn(wntr, s))
             ctx.case(("ruleeq", hyd, rule, c, at, kind, sc), True)
-            ctx.count("rule-eq:" + ("stop-after-instant" if at is not None and at > c else "stop-before-instant" if at is not None else "no-stop"))
+            ctx.count("rule-eq:" + ("premise-at-start" if c == 0 else "premise-on-rule-timestep" if c % rule == 0 else "stop-after-instant" if at is not None and at > c else "stop-before-instant" if at is not None else "no-stop"))
             first_open = next((t for t, v in rows if v[0] == 1), None)
             if first_open != r:
-                failures.append(Failure("rule-eq-premise-missed",
+                # a premise at the start of the simulation is a different input class (first rule timestep) than the
+                # known finding (a solve between the instant and the rule timestep): it gets its own key
+                failures.append(Failure("rule-eq-premise-at-start-missed" if c == 0 else "rule-eq-premise-missed",
                                         "rule `IF %s = %d` (rule step %d, hydraulic step %d%s): must act at the rule timestep %d, observed %s"
                                         % ("SYSTEM TIME" if kind == "sim" else "SYSTEM CLOCKTIME", c if kind == "sim" else (c + sc) % 86400, rule, hyd,
                                            ", simple control at %d" % at if at is not None else "", r, "never" if first_open is None else "at %d" % first_open),
